@@ -73,7 +73,11 @@ type HashFunc struct {
 	File string `json:"file"`
 	Line int    `json:"line"`
 	Ret  string `json:"result_type"`
-	rets [][2]int
+	// Inline: not a function but a mixing loop inside Name; Var is the accumulator
+	Inline bool   `json:"inline,omitempty"`
+	Var    string `json:"accumulator,omitempty"`
+	rets   [][2]int
+	after  int // offset right after the loop (inline)
 }
 
 // Site describes one inserted yield.
@@ -279,6 +283,10 @@ func InstrumentVariant(plainDir, dstDir, simDir string, shrink map[int]string, w
 		if bits, ok := weaken[h.ID]; ok {
 			for _, fc := range all {
 				if fc.rel != h.File {
+					continue
+				}
+				if h.Inline {
+					fc.insert(h.after, fmt.Sprintf("; %s &= %d;", h.Var, (1<<uint(bits))-1))
 					continue
 				}
 				for _, r := range h.rets {
@@ -662,13 +670,13 @@ func instrumentFile(fset *token.FileSet, fc *fileCtx, rep *Report, info *types.I
 			}
 			if isPkgIdent(x.X, "runtime") {
 				switch x.Sel.Name {
-				case "Gosched", "GOMAXPROCS", "NumCPU":
+				case "Gosched", "GOMAXPROCS", "NumCPU", "SetFinalizer":
 					o := fc.off(fset, x.X.Pos())
 					fc.replace(o, len(x.X.(*ast.Ident).Name), rtName)
 				case "LockOSThread", "UnlockOSThread", "Goexit":
 					p := fset.Position(x.Pos())
 					rep.Refusals = append(rep.Refusals, fmt.Sprintf("%s:%d: runtime.%s", fc.rel, p.Line, x.Sel.Name))
-				case "SetFinalizer", "GC", "NumGoroutine", "AddCleanup":
+				case "GC", "NumGoroutine", "AddCleanup":
 					p := fset.Position(x.Pos())
 					rep.Unmodelled = append(rep.Unmodelled, fmt.Sprintf("%s:%d: runtime.%s", fc.rel, p.Line, x.Sel.Name))
 				}
@@ -1218,6 +1226,88 @@ func collectHashFuncs(fset *token.FileSet, all []*fileCtx, rep *Report) {
 			if ok2 && len(h.rets) > 0 {
 				rep.HashFuncs = append(rep.HashFuncs, h)
 			}
+		}
+		// inline mixing loops: `acc = (acc ^ x) * K`, `acc ^= x; acc *= K`, ... with the
+		// accumulator declared before the loop, inside functions that are not
+		// themselves hash functions
+		isHashFn := map[string]bool{}
+		for _, h := range rep.HashFuncs {
+			if h.File == fc.rel {
+				isHashFn[h.Name] = true
+			}
+		}
+		for _, d := range fc.f.Decls {
+			fd, ok := d.(*ast.FuncDecl)
+			if !ok || fd.Body == nil || isHashFn[fd.Name.Name] {
+				continue
+			}
+			ast.Inspect(fd.Body, func(n ast.Node) bool {
+				var body *ast.BlockStmt
+				switch x := n.(type) {
+				case *ast.ForStmt:
+					body = x.Body
+				case *ast.RangeStmt:
+					body = x.Body
+				default:
+					return true
+				}
+				loop := n
+				acc := map[string][2]bool{} // name -> {xor seen, mul-by-big / shift seen}
+				ast.Inspect(body, func(m ast.Node) bool {
+					as, ok := m.(*ast.AssignStmt)
+					if !ok || len(as.Lhs) != 1 || len(as.Rhs) != 1 {
+						return true
+					}
+					id, ok := as.Lhs[0].(*ast.Ident)
+					if !ok || id.Obj == nil || id.Obj.Pos() >= loop.Pos() {
+						return true // not a plain local declared before the loop
+					}
+					st := acc[id.Name]
+					switch as.Tok {
+					case token.XOR_ASSIGN:
+						st[0] = true
+					case token.MUL_ASSIGN:
+						if v, ok := intLit(as.Rhs[0]); ok && (v >= 256 || v < 0) {
+							st[1] = true
+						}
+					case token.SHL_ASSIGN:
+						st[1] = true
+					case token.ASSIGN:
+						ast.Inspect(as.Rhs[0], func(e ast.Node) bool {
+							if be, ok := e.(*ast.BinaryExpr); ok {
+								switch be.Op {
+								case token.XOR:
+									st[0] = true
+								case token.MUL:
+									if v, ok := intLit(be.Y); ok && (v >= 256 || v < 0) {
+										st[1] = true
+									} else if v, ok := intLit(be.X); ok && (v >= 256 || v < 0) {
+										st[1] = true
+									} else if _, isLit := ast.Unparen(be.Y).(*ast.BasicLit); isLit {
+										// a literal too big for int64 (e.g. 0x9E3779B97F4A7C15)
+										st[1] = true
+									}
+								}
+							}
+							return true
+						})
+					}
+					acc[id.Name] = st
+					return true
+				})
+				var names []string
+				for name, st := range acc {
+					if st[0] && st[1] {
+						names = append(names, name)
+					}
+				}
+				sort.Strings(names)
+				for _, name := range names {
+					rep.HashFuncs = append(rep.HashFuncs, HashFunc{ID: len(rep.HashFuncs), Name: fd.Name.Name, File: fc.rel, Line: fset.Position(loop.Pos()).Line,
+						Ret: "inline", Inline: true, Var: name, after: fset.Position(loop.End()).Offset})
+				}
+				return true
+			})
 		}
 	}
 }
